@@ -30,6 +30,9 @@ type lsCase struct {
 	IF        uint8       `json:"if"`
 	Events    []lsEvent   `json:"events,omitempty"`
 	MaxCycles int         `json:"max_cycles"`
+	// Vec, when not empty (at most 8 bytes), is the code that the cartridge holds AT each of the five vectors
+	// instead of the usual JP to the handler in work RAM (C04 runs such cases on a rig built with that cartridge)
+	Vec []byte `json:"vec,omitempty"`
 }
 
 type lsPolicy struct {
@@ -64,8 +67,19 @@ func lsROM() []byte {
 	return rom
 }
 
-func newLockstepRig() *cpuRig {
-	m := machine.New(lsROM(), nil, false)
+func newLockstepRig() *cpuRig { return newLockstepRigROM(lsROM()) }
+
+// lsVecROM: the handler code itself sits at the vectors
+func lsVecROM(vec []byte) []byte {
+	rom := machine.MakeROM(0, 0, 0)
+	for i := 0; i < 5; i++ {
+		copy(rom[0x40+8*i:0x48+8*i], vec)
+	}
+	return rom
+}
+
+func newLockstepRigROM(rom []byte) *cpuRig {
+	m := machine.New(rom, nil, false)
 	for i := 0; i < 300 && m.Mp.Read(0xff41)&3 != 0; i++ {
 		m.HW()
 	}
